@@ -155,6 +155,9 @@ def Task.key (t : Task D) : Marker D := ⟨t.layer.digest, t.cs.digest, t.cs.sta
 inductive Op (D : Type) where
   | beginL (entry : Nat) (l : Layer D) (big : Bool)
   | chunk (entry : Nat) (l : Layer D) (cs : CS D)
+  /-- a chunk that has passed the marker check and waits in `g.Go` for a free slot (the marker
+      is NOT looked at again when the slot frees up) -/
+  | launch (entry : Nat) (l : Layer D) (cs : CS D)
   | closeL (entry : Nat)
 deriving Repr
 
@@ -212,7 +215,12 @@ def advance (limit : Option Nat) : Run D → List (Op D) → Run D
     if st.skipLayer || st.skipChunks then advance limit st rest
     else if st.cache.markers ⟨l.digest, cs.digest, cs.start, cs.len⟩ then
       advance limit { st with completed := st.completed + cs.len } rest
-    else if !slotFree limit st then { st with ops := .chunk e l cs :: rest }
+    else if !slotFree limit st then { st with ops := .launch e l cs :: rest }
+    else if st.cancelled then
+      advance limit { st with firstErr := orElse st.firstErr .canceled } rest
+    else advance limit { st with inflight := st.inflight ++ [⟨e, l, cs, st.prevalid⟩] } rest
+  | st, .launch e l cs :: rest =>
+    if !slotFree limit st then { st with ops := .launch e l cs :: rest }
     else if st.cancelled then
       advance limit { st with firstErr := orElse st.firstErr .canceled } rest
     else advance limit { st with inflight := st.inflight ++ [⟨e, l, cs, st.prevalid⟩] } rest
